@@ -465,6 +465,21 @@ func c08(c *core.Ctx) {
 			}
 		}
 	}
+	// the ExtraPaddingSize byte of Part 6 §6.7.2.5: present iff the key that encrypts (the receiver's) is larger than
+	// 2048 bits — C07's lockstep obligations on the 256-byte tests apply verbatim
+	c.Rule("C08.padding", "the ExtraPaddingSize byte is emitted iff the remote (encrypting) key's signature length exceeds 256 bytes and expected iff the local key's does (Part 6 §6.7.2.5); SetMaximumBodySize reserves it under the sender's test", 2)
+	{
+		tmp := core.NewCtx(c.Prop, c.Tier, c.P)
+		c07(tmp)
+		for _, e := range tmp.Errors {
+			c.Fatal("%s", e)
+		}
+		for _, o := range tmp.Obs {
+			if o.Rule == "C07.lockstep" && strings.Contains(o.Key, "extra padding") {
+				c.Ob("C08.padding", o.Key, o.Pos, o.OK, o.Detail)
+			}
+		}
+	}
 	sign := fn(c, "uasc", "channelInstance", "signAndEncrypt")
 	verify := fn(c, "uasc", "channelInstance", "verifyAndDecrypt")
 	if sign == nil || verify == nil {
